@@ -24,8 +24,10 @@ from cassandra.protocol import QueryMessage, ProtocolHandler, ErrorMessage
 from cassandra import OperationTimedOut
 
 
-def frame(stream, opcode, body):
-    return struct.pack('>BBhBi', 0x84, 0, stream, opcode, len(body)) + body
+def frame(stream, opcode, body, version=4):
+    if version >= 3:
+        return struct.pack('>BBhBi', 0x80 | version, 0, stream, opcode, len(body)) + body
+    return struct.pack('>BBbBi', 0x80 | version, 0, stream, opcode, len(body)) + body      # v1/v2: one-byte stream id
 
 
 def body_for(d):
@@ -303,6 +305,7 @@ class Harness(object):
         self.traffic = False              # a frame was processed since the last heartbeat round
         self.hb_race_ran = 0
         self.hb_stale_waits = 0
+        self.hb_early_wakes = 0
         self.in_hb_round = False
         self.hb_waited_ok = False
         self.hb_seq = 0
@@ -826,7 +829,7 @@ class Harness(object):
         op, body = body_for(a.get('d', 'DOk'))
         self.feeding = {'d': a.get('d', 'DOk'), 'nested': {'begun': a.get('begun')}}
         try:
-            self.conn._iobuf.write(frame(i, op, body))
+            self.conn._iobuf.write(frame(i, op, body, self.protocol_version))
             self.conn.process_io_buffer()
         finally:
             self.feeding = None
@@ -927,7 +930,7 @@ class Harness(object):
             return
         st = lambda x: struct.pack('>H', len(x)) + x
         body = st(b'STATUS_CHANGE') + st(b'UP') + bytes([4, 10, 0, 0, 9]) + struct.pack('>i', 9042)
-        self.conn._iobuf.write(frame(-1, 0x0C, body))
+        self.conn._iobuf.write(frame(-1, 0x0C, body, self.protocol_version))
         self.conn.process_io_buffer()
         self.checkpoint()
 
